@@ -194,7 +194,7 @@ class Tables(object):
         # ---- in place
         'setitem': dict(t=_t, col=_ci, new=st.booleans(), how=st.sampled_from(['item', 'attr', 'update']),
                         mode=st.sampled_from(['fit', 'fit', 'scalar', 'len1', 'tuple', 'misfit']), vals=_vals, k=st.integers(0, 9)),
-        'set_misfit': dict(t=_t, col=_ci, new=st.booleans(), how=st.sampled_from(['item', 'attr', 'update']), vals=_vals, k=st.integers(0, 9)),
+        'set_misfit': dict(t=_t, col=_ci, new=st.booleans(), how=st.sampled_from(['item', 'attr', 'update', 'update2']), vals=_vals, k=st.integers(0, 9)),
         'delcol': dict(t=_t, col=_ci, how=st.sampled_from(['item', 'attr'])),
         # ---- reading / selecting
         'row': dict(t=_t, i=st.integers(0, 30), neg=st.booleans()),
@@ -495,7 +495,35 @@ class Tables(object):
 
     def op_set_misfit(self, t, col, new, how, vals, k):
         """an assignment whose length is neither len(d) nor 1 (any length fits a table without columns)"""
-        self.op_setitem(t, col, new, how, 'misfit', vals, k, op='set_misfit')
+        e = self._pick(t)
+        if how != 'update2' or e is None or not e['m'].cols:
+            return self.op_setitem(t, col, new, 'update' if how == 'update2' else how, 'misfit', vals, k, op='set_misfit')
+        # d.update({c1: fitting, c2: misfit}): ValueError; the statement demands a rectangular table afterwards, so the
+        # fitting column may or may not have been stored - both outcomes are accepted and the model follows the table
+        self._begin('set_misfit')
+        self._use('set_misfit', e)
+        d, m = e['d'], e['m']
+        c1 = self._fresh(e, col) if new else m.cols[col % len(m.cols)]
+        c2 = self._fresh(e, col + 1, avoid=[c1])
+        v1, cells1, _ = self._value('scalar' if k % 2 else 'fit', vals, m.n, len(m.cols), k)
+        v2, _, fits = self._value('misfit', vals, m.n, len(m.cols), k)
+        what = 'd.update({%r: %s, %r: %s}) on %s' % (c1, short(v1, 80), c2, short(v2, 80), short(raw(d), 150))
+        snap = self._snap(skip=d)
+        must_raise(what, ValueError, lambda: d.update({c1: v1, c2: v2}))
+        self._unchanged(what, snap)
+        store = raw(d)
+        applied = self._assign_model(m, c1, cells1)
+        lens = sorted(set(len(v) if isinstance(v, list) else -1 for v in store.values()))
+        check(len(lens) <= 1, '%s was rejected but left the table non-rectangular: %s', what, store)
+        for cand in (m, applied):
+            if set(store) == set(cand.cols) and all(same_list(store[c], cand.col(c)) for c in cand.cols):
+                m.cols, m.rows = list(cand.cols), [dict(r) for r in cand.rows]
+                break
+        else:
+            check(False, '%s was rejected and left %s: neither the old table nor the old table with %s assigned', what, store, c1)
+        self.flags.add('misfit')
+        self.flags.add('partial_update')
+        e['gen'] += 1
 
     def op_delcol(self, t, col, how):
         self._begin('delcol')
@@ -988,7 +1016,7 @@ class Tables(object):
 
 
 SUBS = [
-    MachineSub('history', Tables, quick=(320, 25), thorough=(1500, 50),
+    MachineSub('history', Tables, quick=(1600, 25), thorough=(4000, 50),
                rule='histories of <= 25 (thorough 50) public table operations over a pool of <= 3 live tables, each paired with a list-of-records model: '
                     'construction (records incl. ragged, {col: list}, keyword columns with scalar / length-1 broadcast, pairs, rows + headers, header row, zip, '
                     'six empty forms, misfit lengths), d[c] = / d.c = / update (fit, scalar, length 1, tuple, misfit -> ValueError), del d[c] / del d.c, d[i], d[-i], '
@@ -1000,5 +1028,5 @@ SUBS = [
                     'non-trivial = >= 3 operations, a table produced by one rule consumed by another, and an empty table / broadcast / concatenation with differing columns / '
                     'misfit assignment occurs; distinct = distinct history',
                floor=0.5,
-               class_floors={'empty': 0.3, 'broadcast': 0.1, 'concat_diffcols': 0.1, 'misfit': 0.1, 'chain': 0.4, 'mask_to_empty': 0.05}),
+               class_floors={'empty': 0.3, 'broadcast': 0.1, 'concat_diffcols': 0.15, 'misfit': 0.15, 'chain': 0.4, 'mask_to_empty': 0.05}),
 ]
